@@ -86,6 +86,56 @@ def classify_hit(h, idx):
     return "trace-monitor", "observed trace violates the C13 monitor"
 
 
+# Protocol ids the consumers of bcast register on the host besides bcast's own, as observed on the clean tree
+# (HEAD 3d1886d) by harness/overlay/dkg/zz_verif_c13_test.go.  bcast's own ids must be its sig / msg phases.
+CONSUMER_PROTOCOLS = {
+    "bcast": ["/charon/dkg/bcast/2.0.0/msg", "/charon/dkg/bcast/2.0.0/sig"],
+    "pedersen.NewBoard": ["/charon/dkg/pedersen/1.0.0/deal_bundle", "/charon/dkg/pedersen/1.0.0/just_bundle",
+                          "/charon/dkg/pedersen/1.0.0/resp_bundle", "/charon/dkg/pedersen/1.0.0/val_pubkey_share"],
+    "newFrostP2P": ["/charon/dkg/frost/2.0.0/round1/p2p"],
+    "newNodeSigBcast": [],
+}
+
+
+def consumers(R):
+    """Structural + behavioural family over the real consumers of bcast (pedersen board, frost transport, node
+    signatures) wired on one libp2p host as dkg.Run does: no protocol id outside the allow-list, and nothing reaches
+    a consumer's delivery channel except through bcast's verified delivery."""
+    ov = {"zz_verif_c13_test.go": os.path.join(vp.VERIF, "harness", "overlay", "dkg", "zz_verif_c13_test.go")}
+    od = os.path.join(vp.WORK, "ov_dkg_c13")
+    res = os.path.join(od, "bcast_consumers.json")
+    if os.path.exists(res):
+        os.remove(res)
+    rc, out, od = vp.go_overlay_test("dkg", ov, run="TestVerifC13Consumers", timeout=900, outdir=od)
+    if rc != 0 or not os.path.exists(res):
+        R.broke("correspondence:consumer harness (overlay dkg/TestVerifC13Consumers) failed to run", out[-3000:])
+        return
+    o = json.load(open(res))
+    how = "./check C13 --replay <this file> re-runs the consumer family (go test -overlay, package dkg, TestVerifC13Consumers) against VERIF_REPO"
+    nnew = 0
+    for comp, ids in sorted(o["protocols"].items()):
+        for pid in ids:
+            if pid not in CONSUMER_PROTOCOLS.get(comp, []):
+                nnew += 1
+                R.violation("consumer:new-protocol-id", "%s registers the protocol id %s on the host, which is not in the allow-list observed on the clean tree: "
+                            "a further entrance next to bcast's verified delivery" % (comp, pid),
+                            {"consumer": True, "component": comp, "protocol": pid, "registered": o["protocols"], "how": how})
+    hits = [p for p in o["probes"] if p.get("delivered")]
+    for p in hits[:3]:
+        R.violation("consumer:unverified-delivery",
+                    "a payload of bcast message id %s sent by a faulty member on protocol id %s (%s), signed by nobody, arrived on %s: "
+                    "two receivers can be given different payloads for the same sender and message id"
+                    % (p["msg_id"], p["protocol"], "wrapped in Any" if p.get("wrapped_in_any") else "raw", p["delivered"]),
+                    {"consumer": True, "probe": p, "registered": o["protocols"], "how": how})
+    R.coverage["consumers"] = {"what": "pedersen.NewBoard + newFrostP2P + newNodeSigBcast + bcast.New on one libp2p host (as dkg.Run wires them); a faulty member streams every bcast message type to every non-bcast protocol id and to every bcast message id used as protocol id",
+                               "protocol_ids_by_component": o["protocols"], "bcast_message_ids": o["bcast_message_ids"],
+                               "probes": len(o["probes"]), "probes_stream_opened": sum(1 for p in o["probes"] if p.get("stream_ok")),
+                               "unverified_deliveries": len(hits), "protocol_ids_outside_allow_list": nnew}
+    R.coverage["evaluations"] += len(o["probes"])
+    for x in o.get("notes") or []:
+        R.notes.append("consumers: " + x)
+
+
 def main():
     R = vp.Result("C13")
     R.assumptions = [
@@ -95,9 +145,19 @@ def main():
         "'honest members sign at most one payload per (requester, id)' is about signatures given in answer to signature requests (requester <> signer); a client's own signature is not deduplicated by the code, which is harmless because a member never delivers its own broadcasts",
         "the application's checkMessage result and anypb UnmarshalNew are inputs (label fields ck, um), not modelled functions; callback errors are not modelled (the callback has been invoked by then)",
         "the race class (concurrent conflicting signature requests) is a probabilistic detector of non-atomic handlers: the theorems assume handleSigRequest's check-and-store on the dedup table is atomic (one lock acquisition), the harness only samples interleavings; counts are in coverage.race",
+        "the theorems are about deliveries through bcast; that the applications (pedersen board, frost transport, node signatures) have no other entrance to their delivery channels is checked structurally (protocol ids registered on the host vs. an allow-list) and behaviourally (a faulty member streams every message type to every other protocol id) by the consumer family, not proved",
         "harness: error classes of refusals are read from the handler's error log line; responses to honest clients are not observed individually (label OSAny) unless the Broadcast succeeded; all faulty members are played by one script (they share what they see)",
     ]
     R.proofs()
+    rp = os.environ.get("VERIF_REPLAY")
+    if rp:
+        try:
+            rj = json.load(open(rp))
+            if (rj.get("replay") or rj).get("consumer"):
+                consumers(R)
+                R.finish()
+        except (OSError, ValueError):
+            pass
     n = 1500 if R.thorough else 200
     rc, out, od = vp.go_harness("bcast", env_extra={"VERIF_N": n, "VERIF_RACE_IDS": 300 if R.thorough else 150}, timeout=1500)
     if rc != 0:
@@ -174,4 +234,6 @@ def main():
             R.broke("correspondence:Bcast model rejects observed trace %d (%s) at label %d: %s" % (cid, h["kind"], idx, h["labels"][idx] if idx < len(h["labels"]) else "?"),
                     json.dumps({"script": script_of(h), "labels": h["labels"]}))
     R.coverage["traces_validated_against_impl"] = len(hs)
+    if not rp:
+        consumers(R)
     R.finish()
